@@ -1,0 +1,24 @@
+//go:build verif
+
+// Package verifhook provides yield points for verification harnesses.
+package verifhook
+
+import "sync/atomic"
+
+var hook atomic.Pointer[func(site string)]
+
+// Set installs (or, with nil, removes) the callback invoked at every yield point.
+func Set(f func(site string)) {
+	if f == nil {
+		hook.Store(nil)
+		return
+	}
+	hook.Store(&f)
+}
+
+// Yield calls the installed callback, if any, naming the site reached.
+func Yield(site string) {
+	if f := hook.Load(); f != nil {
+		(*f)(site)
+	}
+}
